@@ -166,7 +166,12 @@ def execute(case):
 def execute_large(case):
     """the same monitor on a realistically sized image (> 1 MiB per chunk at the default rpc)"""
     tc, L, P, rpc = case["type"], case["L"], case["P"], case["rpc"]
-    im = synth.image_spec("HH", None, L, P, tc)
+    samples = None
+    if L * P > 4_000_000:  # the default position-coded samples are built line by line in Python: too slow at this size
+        bps = synth.TYPE_INFO[tc]["bps"]
+        blob = np.random.default_rng(L).integers(0, 127, size=(L, P * bps), dtype="uint8")
+        samples = [blob[k].tobytes() for k in range(L)]
+    im = synth.image_spec("HH", None, L, P, tc, samples=samples)
     spec = synth.product_spec("1.1" if tc == "C*8" else "1.5", images=[im])
     files, _ = synth.build(spec)
     fname = synth.image_name(spec, im)
@@ -177,7 +182,7 @@ def execute_large(case):
         for b in check_open(list(vfs.LOG), fname, im, rpc or 1024):
             fails.append({"sig": {"kind": "open"}, "detail": f"{tc} {L}x{P} rpc={rpc or 'default'}: {b}", "case": {**case, "fn": "execute_large"}})
         da = tree["imagery/HH/data"]
-        sels = [0, L // 2, L - 1, slice(None), slice(1020, 1030), slice(1024, 1025), slice(0, L, 1024), slice(L // 3, L // 3 + 5), slice(None, None, 16), slice(None, None, 2), slice(0, 64), slice(0, 128), slice(64, 65), slice(L - 3, None), slice(None, None, -7), [3, L - 2], slice(2, 2)]
+        sels = [0, L // 2, L - 1, slice(None), slice(50, L - 50), slice(1, None), slice(0, L - 1), slice(1020, 1030), slice(1024, 1025), slice(0, L, 1024), slice(L // 3, L // 3 + 5), slice(None, None, 16), slice(None, None, 2), slice(0, 64), slice(0, 128), slice(64, 65), slice(L - 3, None), slice(None, None, -7), [3, L - 2], slice(2, 2)]
         for sel in sels:
             rows = list(range(L))[sel] if isinstance(sel, slice) else ([sel] if isinstance(sel, int) else list(sel))
             vfs.reset_log()
@@ -235,8 +240,8 @@ def run(res, tier, seed):
         "rows alphabet of C02 (all ints, slices, int arrays len<=2, masks) x 4 column representatives, plus every pointwise (vectorised) pair" " and triple of lines, x rpc 1..L+1 x L 1..4|6 x both types;"
         " each load's mcfs:// event log is checked against byte spans computed by independent arithmetic; plus one"
         " open_alos2 metadata-pass log per (type, L, P, rpc); plus the same loads on an image opened through an index cache that was"
-        " written and first used with a different rpc (groups are those of the *requested* rpc); plus 17 selections on realistically sized"
-        " images (640x1000 IU2, 320x600 C*8 at rpc {default, 64, 1000}; 2500x8 IU2, 2100x3 C*8 at rpc {default, 100, 1000, 2048}). A batch is non-trivial if at least one selection loads >= 1 line."
+        " written and first used with a different rpc (groups are those of the *requested* rpc); plus 20 selections on realistically sized"
+        " images (640x1000 IU2, 320x600 C*8 at rpc {default, 64, 1000}; 2500x8 IU2, 2100x3 C*8 at rpc {default, 100, 1000, 2048}; 1300x40000 IU2 (104 MB) at rpc {default, 64, 100}, 300x40000 C*8 at rpc 7, 5120x4 IU2). A batch is non-trivial if at least one selection loads >= 1 line."
     )
     res.assumptions = ["I/O is observed at the fsspec file-object level (open/seek/read), not at the OS level"]
     n = na = nskip = 0
@@ -248,6 +253,8 @@ def run(res, tier, seed):
         nskip += out["n_skip"]
     large = [{"type": tc, "L": L, "P": P, "rpc": rpc} for tc, L, P in (("IU2", 640, 1000), ("C*8", 320, 600)) for rpc in (None, 64, 1000)]
     large += [{"type": tc, "L": L, "P": P, "rpc": rpc} for tc, L, P in (("IU2", 2500, 8), ("C*8", 2100, 3)) for rpc in (None, 100, 1000, 2048)]
+    # ~100 MB: selections beyond 64 MiB, requests of 5 / 8 / 80 MB
+    large += [{"type": "IU2", "L": 1300, "P": 40000, "rpc": rpc} for rpc in (None, 64, 100)] + [{"type": "C*8", "L": 300, "P": 40000, "rpc": 7}, {"type": "IU2", "L": 5120, "P": 4, "rpc": None}]
     for idx, case, out in core.pool_map(__name__, "execute_large", large, chunksize=1):
         res.record({**case, "fn": "execute_large"}, out, order=10**6 + idx)
         n += out["n"]
